@@ -21,6 +21,16 @@ pub struct Layout {
     pub sizes: Vec<u32>,
     pub prior: Vec<u8>,
     pub target: Vec<u8>,
+    /// hash length of both indexes (8..=64; older replay files have none = 64)
+    #[serde(default = "full_hash_len")]
+    pub hash_len: usize,
+}
+fn full_hash_len() -> usize {
+    64
+}
+/// hash lengths for abstract layouts: >= 8 so that up to 16 distinct contents keep distinct keys
+pub fn layout_hash_len() -> impl Strategy<Value = usize> {
+    prop_oneof![3 => Just(64usize), 2 => 8usize..=64, 1 => Just(8usize)]
 }
 
 pub struct Ident {
@@ -184,10 +194,11 @@ fn classify(rec: &mut CaseRec, l: &Layout, r: &LayoutRun) {
     rec.class_if(pl > tl, "prior_longer");
     rec.class_if(pl < tl, "prior_shorter");
     rec.class_if(pl == tl, "prior_same_length");
+    rec.class_if(l.hash_len < 64, "truncated_hash");
 }
 
-fn check_layout(l: &Layout, rec: &mut CaseRec) -> Result<(), String> {
-    let r = run_layout(l, 64)?;
+pub fn check_layout(l: &Layout, rec: &mut CaseRec) -> Result<(), String> {
+    let r = run_layout(l, l.hash_len)?;
     if let Some(e) = &r.output_error {
         return Err(e.clone());
     }
@@ -220,8 +231,9 @@ fn random_layout_strategy() -> impl Strategy<Value = Layout> {
             prop::collection::vec(prop_oneof![3 => 1u32..=4, 2 => 1u32..=16, 1 => 1u32..=200], k),
             prop::collection::vec(0u8..k as u8, 0..60),
             prop::collection::vec(0u8..k as u8, 0..60),
+            layout_hash_len(),
         )
-            .prop_map(|(sizes, prior, target)| Layout { sizes, prior, target })
+            .prop_map(|(sizes, prior, target, hash_len)| Layout { sizes, prior, target, hash_len })
     })
 }
 /// target = permutation-ish edit of the prior (many reusable chunks, many cycles)
@@ -232,8 +244,9 @@ fn shuffled_layout_strategy() -> impl Strategy<Value = Layout> {
             prop::collection::vec(0u8..k as u8, 2..40),
             prop::collection::vec((any::<u16>(), any::<u16>()), 0..12),
             prop::collection::vec((any::<u16>(), 0u8..k as u8), 0..4),
+            layout_hash_len(),
         )
-            .prop_map(|(sizes, prior, swaps, repl)| {
+            .prop_map(|(sizes, prior, swaps, repl, hash_len)| {
                 let mut target = prior.clone();
                 for (a, b) in swaps {
                     let (i, j) = (idx(a, target.len()), idx(b, target.len()));
@@ -243,7 +256,7 @@ fn shuffled_layout_strategy() -> impl Strategy<Value = Layout> {
                     let i = idx(a, target.len());
                     target[i] = v;
                 }
-                Layout { sizes, prior, target }
+                Layout { sizes, prior, target, hash_len }
             })
     })
 }
@@ -317,7 +330,7 @@ impl Prop for C03 {
                             }
                             for tg in &tgt {
                                 count += 1;
-                                let l = Layout { sizes: sizes.clone(), prior: p.clone(), target: tg.clone() };
+                                let l = Layout { sizes: sizes.clone(), prior: p.clone(), target: tg.clone(), hash_len: 64 };
                                 let key = blake2_64(&[b"exh", &[s0 as u8, s1 as u8, s2 as u8], p, &[0xff], tg]);
                                 if !cx.eval_case("exh", &l, key, |rec| check_layout(&l, rec)) && cx.stats.failures.len() >= 3 {
                                     break 'outer;
